@@ -33,6 +33,7 @@ Definition keep_green_get_commit_status : bool := true.
 Definition inflight_guard_check_suite : bool := true.
 Definition inflight_guard_poll_github : bool := true.
 Definition inflight_guard_poll_bitbucket : bool := true.
-(* observed on the running code: Client._mk_key gives two of the 7 probe requests the same key exactly when
-   they address the same resource (same URL, same parameter names and values) - harness/props/c17.py: probe_mk_key *)
+(* observed on the running client: of the 7 probe requests, the GET of one re-uses the stored validator of another
+   exactly when they address the same resource (same URL, same parameter names and values, any order) -
+   harness/props/c17.py: probe_mk_key *)
 Definition mk_key_separates_resources : bool := true.
